@@ -19,7 +19,7 @@ ASSUMPTIONS = sched.ASSUMPTIONS + [
     'any subset of entries may be missing (failed, lost, newly added tasks)',
     'time.time() of this run returns instants later than every persisted one']
 OUTSIDE = sched.OUTSIDE + ['the byte-level persistence of environments (C14)']
-BOUNDS = {'quick': {'tasks': '2 (all 3 graphs, 1 worker), 3-task chain / hard-then-soft chain with 1 worker; + a chain whose soft dependent is created BEFORE its dependency',
+BOUNDS = {'quick': {'tasks': '2 (all 3 graphs, 1 worker), 3-task chain with 1 worker; + a chain whose soft dependent is created BEFORE its dependency',
                     'initial environment': 'solver-chosen under the invariant', 'outcomes': KINDS,
                     'depth': 'every run, first K = 22+11N+6W steps'},
           'thorough': {'tasks': '<= 3', 'graphs': 'all 27 labelled graphs on 3 tasks (W=1), 2-task graphs W=1 (two workers: outside, queries need 30-75 min from an arbitrary initial environment)',
@@ -155,7 +155,7 @@ def _job(n, hard, soft, w, tier, seed=0):
 
 
 def jobs(tier):
-    out = sched.standard_jobs(tier, _job, light=('n2w2-h10-s_', 'n3w1-h20-s21'), no_w2=True)
+    out = sched.standard_jobs(tier, _job, light=('n2w2-h10-s_', 'n3w1-h20-s21', 'n3w1-h10-s21'), no_w2=True)
     # the standard graphs only have edges from a task to a task created BEFORE it; here a task soft-depends on one created later
     # (t0 -soft-> t2 -hard-> t1), so that node order and dependency order disagree
     for hard, soft in ([(2, 1)], [(0, 2)]), ([(1, 2)], [(0, 1)]):
